@@ -106,7 +106,14 @@ pub fn run(ctx: &mut Ctx) {
     let pki = Pki::new(&mut ctx.rng);
     let n = if ctx.thorough { 3000 } else { 60 };
     for k in 0..n {
-        let nss = gen_namespaces(ctx);
+        let mut nss = gen_namespaces(ctx);
+        // element sizes that make the IssuerSignedItemBytes cross every CBOR length-header boundary (23/24, 255/256, 65535/65536 bytes):
+        // a sweep of consecutive value lengths, so that items of EXACTLY the boundary sizes are issued (quick: once; thorough: under every digest algorithm)
+        if k % 20 == 7 && (ctx.thorough || k == 7) {
+            let mut sizes = BTreeMap::new();
+            for b in [24usize, 256, 65536] { for l in b.saturating_sub(if b > 1000 { 130 } else { 110 })..=b + 2 { sizes.insert(format!("sz{l}"), Value::Bytes(vec![(l % 251) as u8; l])); } }
+            nss.insert("ns.sizes".to_string(), sizes);
+        }
         let alg = [DigestAlgorithm::SHA256, DigestAlgorithm::SHA384, DigestAlgorithm::SHA512][k % 3];
         let decoys = (k / 3) % 2 == 0;
         let doc_type = if k % 4 == 0 { "org.iso.18013.5.1.mDL".to_string() } else { format!("org.example.{}", gen_text(&mut ctx.rng, 8)) };
